@@ -38,7 +38,8 @@
 // "trie does not have expected root" when the cached trie no longer hashes to that root.
 //
 // input: `state` then steps separated by one space; handle 0 is a TrieState over NewEmptyTrie()
-//   p<k>:<key>:<value>  d<k>:<key>  c<k>:<prefix>  v<k>:<0|1>     on TrieState k (no open transaction)
+//   p<k>:<key>:<value>  d<k>:<key>  c<k>:<prefix>  v<k>:<0|1>     on TrieState k (no open transaction;
+//                       TrieState.ClearPrefix refuses prefixes covering ":child_storage:", e.g. the empty one)
 //   S<k>                StoreTrie(TrieState k, nil)
 //   T<k>                TrieState(&root) with the root under which k was last stored -> new handle
 //   R0                  restart: a new InmemoryStorageState with NewTries() on the same database, so that
@@ -1093,6 +1094,20 @@ func c03sGen(r *vu.RNG, n int, emit func(string)) {
 				}
 				sort.Strings(keys)
 				switch y := r.Intn(10); {
+				case y < 1 && len(keys) > 0: // ClearPrefix through the TrieState (the empty prefix is refused: it
+					// covers the child storage keys)
+					k := []byte(keys[r.Intn(len(keys))])
+					if len(k) > 0 && r.Chance(1, 2) {
+						k = k[:len(k)-1]
+					}
+					if len(k) > 0 {
+						for a := range kv[i] {
+							if strings.HasPrefix(a, string(k)) {
+								delete(kv[i], a)
+							}
+						}
+					}
+					toks = append(toks, "c"+vu.X(uint64(i))+":"+vu.Hex(k))
 				case y < 2 && len(keys) > 0:
 					k := keys[r.Intn(len(keys))]
 					delete(kv[i], k)
